@@ -32,7 +32,7 @@ def _env(engine=None):
 def mem_for(engine):
     # whole-session glue (engine `small`) needs 10-30 GB per query
     if engine == "small":
-        return max(MEM_KB, 36 * 1024 * 1024)
+        return max(MEM_KB, 56 * 1024 * 1024)
     return MEM_KB
 
 
@@ -71,9 +71,15 @@ def run_kani(engine, tag, tier, hs, log_path, overall_timeout):
         jobs = min(jobs, 3)
         mem_kb = max(mem_kb, 30 * 1024 * 1024)
     if engine == "small" and not os.environ.get("VERIF_JOBS"):
-        # whole-session glue: 10-20 GB per query
-        jobs = max(1, min(4, len(hs)))
-        mem_kb = max(MEM_KB, 36 * 1024 * 1024)
+        # whole-session glue: 10-20 GB per quick query (4 at a time, 36 GB cap each).
+        # Thorough-only glue queries are far bigger (measured: the two-request authorization query peaks at 36.6 GB and
+        # takes 40 min; it passes only with the machine to itself) => one at a time, 56 GB cap.
+        if tier == "thorough":
+            jobs = 1
+            mem_kb = max(MEM_KB, 56 * 1024 * 1024)
+        else:
+            jobs = max(1, min(4, len(hs)))
+            mem_kb = max(MEM_KB, 36 * 1024 * 1024)
     # harness filters are substring matches: make them unambiguous by anchoring on the module path
     filters = [f"verif_{h.module}::{h.name}" for h in hs]
     cmd = kani_cmd(engine, target, filters, per, json_out, jobs)
